@@ -136,7 +136,10 @@ def plan(tier, seed):
         ph = ch.all("phase", phases)
         base = {"kind": ph, "gold": gpath, "sizes": cfg["set_sizes"]}
         if ph == "bfs":
-            base.update(depth=cfg["bfs_depth"], cap=cfg["bfs_cap"], par=max(2, par // 2))
+            # histories up to this length are also enumerated one by one by the hist/tree phases; a divergence
+            # whose minimal history fits is reported there (cheap replay), the BFS only counts it
+            covered = 0 if "hist" not in phases else (cfg["hist_depth"] + (1 if "tree" in phases else 0))
+            base.update(depth=cfg["bfs_depth"], cap=cfg["bfs_cap"], par=max(2, par // 2), covered_len=covered)
         elif ph == "seed":
             base["seed"] = ch.all("hashseed", pool["pool"])
             base["events"] = ch.all("events", ev_chunks)
@@ -153,6 +156,7 @@ def plan(tier, seed):
     d["dimensions"] = {k: len(v) for k, v in st.dim_hist.items()}
     _PLAN.update(pool=pool, gold=gold, cfg=cfg, tier=tier, plan_tree=dict(states=st.states, transitions=st.transitions))
     d["golden_runs"] = len(EVENT_NAMES) + 1
+    _PLAN["n_items"] = len(items) if not os.environ.get("C14_PHASES") else -1
     return items, d
 
 
@@ -455,6 +459,7 @@ def _ex_bfs(item):
     outcomes = collections.Counter()
     nk = []
     crosschecks = [0]
+    covered = collections.Counter()
 
     def expand(h):
         verify = _verify_event(h)
@@ -470,19 +475,23 @@ def _ex_bfs(item):
         v = _viols_for_step(h, ch, gold, attr, "bfs")
         outcomes[ch["status"].split(":")[0] + ("!" if v else "")] += 1
         for x in v:
-            if x["key"] not in [y["key"] for y in viols]:
+            m = x["detail"].get("minimal")
+            if m is not None and len(m) + 1 <= item.get("covered_len", 0) and x["key"].split("|")[1] != "repeat":
+                covered[x["key"]] += 1
+            elif x["key"] not in [y["key"] for y in viols]:
                 viols.append(x)
 
     r = ss.bfs(expand, EVENT_NAMES, max_depth=item["depth"], max_states=item.get("cap"), par=item.get("par", 4),
                on_transition=on_transition)
     longest = max((len(h) for h in r["states"].values()), default=0)
     return _finish(viols, outcome=f"bfs:{'fixpoint' if r['fixpoint'] else 'bounded'}", nkey=nk,
-                   keys=sorted(r["states"]),
+                   keys=sorted(r["states"]), covered_keys=dict(covered),
                    bfs=dict(states=len(r["states"]), transitions=r["transitions"], expansions=r["expansions"],
                             levels=r["levels"], fixpoint=r["fixpoint"], capped=r["capped"],
                             depth_bound=item["depth"], depth_reached=r["depth_reached"],
                             unexpanded_frontier=r["unexpanded"], longest_shortest_history=longest,
                             transition_outcomes=dict(outcomes),
+                            diverging_transitions_reported_by_unabstracted_phases=dict(covered),
                             components_changed_by_event={e: dict(c) for e, c in changed.items()},
                             sample_states=[{"key": k, "history": r["states"][k]} for k in sorted(r["states"])[:5]]),
                    counts={"events_executed": r["transitions"] + sum(len(h) for h in r["states"].values()),
@@ -515,6 +524,12 @@ def summarize(items, results, tier):
         for o in r.get("orders") or []:
             name, rest = o.split(":", 1)
             fam_orders[(name, rest.split(":")[0])].add(rest)
+    # a divergence the BFS left to the hist/tree phases must have been reported there
+    reported = {v["key"] for r in results for v in (r.get("viols") or [])}
+    for it, r in zip(items, results):
+        missing = sorted(set(r.get("covered_keys") or {}) - reported)
+        if missing and len(items) == _PLAN.get("n_items"):
+            raise RuntimeError(f"C14: BFS saw divergences that the unabstracted phases did not report: {missing}")
     pool = _PLAN.get("pool", {})
     gold = _PLAN.get("gold", {"events": {}})
     out = dict(
